@@ -16,6 +16,8 @@ impl InstCell {
     pub fn new(fam: u32) -> Self {
         let c = Self { id: fresh_id(), fam, born: me() };
         emit(json!({"ev":"create","t":c.born,"inst":c.id,"fam":fam}));
+        // a factory may use the wrapper it is being created for (program op "acqr")
+        crate::perthread::maybe_reenter();
         c
     }
 }
